@@ -108,4 +108,27 @@ theorem reconstruction_correct (G : GateSem K) (ms : MeasSem G) (e : Nat → Boo
   obtain ⟨hwf, hbody, hmem⟩ := hsub p hp ch hch
   rw [decoded_eq G ms e _ hwf, hbody, hmem]
 
+/-! ### instruction lists as primitive programs -/
+
+theorem actL_append (a b : List (Prim K)) (σ : St K) : actL (a ++ b) σ = actL b (actL a σ) := by
+  simp [actL, List.foldl_append]
+
+/-- running an instruction list is running the concatenation of the primitives of its instructions: the body of a
+subexperiment given as an instruction list (what `generate_cutting_experiments` emits before the measurement circuit) is the
+primitive program `instrs.flatMap (prims G none)` -/
+theorem runI_eq_actL (G : GateSem K) : ∀ (l : List Instr) (σ : St K), runI G l σ = actL (l.flatMap (prims G none)) σ
+  | [], _ => rfl
+  | i :: l, σ => by
+    rw [List.flatMap_cons, actL_append, ← runI_eq_actL G l]
+    rfl
+
+/-- a subexperiment given by instruction lists: body, then the measurement blocks -/
+def SubExp.ofInstrs (G : GateSem K) (body : List Instr) (blocks : List Block) : SubExp K :=
+  { body := body.flatMap (prims G none), blocks := blocks }
+
+theorem SubExp.ofInstrs_final (G : GateSem K) (body : List Instr) (blocks : List Block) (σ : St K) :
+    runI G (blocksInstrs blocks) (actL (SubExp.ofInstrs G body blocks).body σ) = runI G (body ++ blocksInstrs blocks) σ := by
+  rw [runI_append, runI_eq_actL G body]
+  rfl
+
 end CKT.C01PTM
